@@ -28,8 +28,50 @@ SYNC_RULE = ("sync stream: per case a fresh regtest canister (threshold 1-4, def
              "A case is distinct by the hash of its message kinds and budgets.")
 
 PROPS = {
+    "C06": {
+        "spec_ops": ["c walk done"],
+        "streams": [{"name": "ledger", "quick": 160, "thorough": 1600}],
+        "rule": LEDGER_RULE + " Interleaved page walks: a walk (page size 1-3) is started on a random address and its pages are fetched with pushes, ingestions and queries in between; `walk done` compares the concatenation with the ledger at the first tip. One directed case per four shards: a transaction with 300 outputs to one address, page size 200, first page before and later pages after the block stabilises (known finding F11).",
+        "explanation": "theorems: a page token of the k-th element returns exactly the suffix of the complete answer from that element; following next_page concatenates to the complete answer, each page <= limit, same tip; a token whose tip is still in the tree denotes the same ledger state in a later state (chain stability under push/pop/insert), otherwise UnknownTipBlockHash; page blobs: 72-byte codec round trip, any other length is MalformedPage, never a trap. F11 counterexample proved at model level.",
+        "technique": "Lean 4 theorems (offset = suffix of the strictly ordered answer; snapshot consistency via the ledger refinement) + differential correspondence with interleaved page walks and a directed known-finding scenario",
+        "level_text": "Machine-checked pagination on one state (all limits >= 1) and ledger-equality across state changes for a surviving tip; element ORDER across a stabilisation is not claimed (F11, known).",
+        "level_note": "Hypotheses: Inv, unique txids per path, heights/vout/txid ranges of the key encoding (model heights are Nat). An offset that is not an element of the answer is only shown not to trap.",
+        "assumptions": [],
+    },
+    "C07": {
+        "spec_ops": ["c q headers"],
+        "streams": [{"name": "ledger", "quick": 160, "thorough": 1600}, {"name": "sync", "quick": 64, "thorough": 800}],
+        "rule": LEDGER_RULE + " Header ranges (start, end) up to tip+2 are requested after steps and at pauses of sliced ingestions; the specification column of every `q headers` line is the slice of (stable chain ++ heaviest branch) computed by the driver.",
+        "explanation": "theorems: under Inv the answer is the slice [lo..hi] of the full best chain's headers, one per height, hi = min(end or tip, start+max-1); the three errors with the code's precedence; consecutive blocks hash-linked; identical answer while the anchor is being ingested (F6 fixed).",
+        "technique": "Lean 4 theorems (range = slice of ghost chain ++ main chain under the global invariant) + differential correspondence with an oracle column on every header query",
+        "level_text": "Machine-checked for all states satisfying Inv (+ distinct heights in the header store) and all (start, end); checked against the oracle at every query incl. paused ingestions and after upgrades.",
+        "level_note": "Header bytes are opaque in the model (hash/prev/time/bits are given); linkedness is stated on the blocks' prev/hash fields.",
+        "assumptions": ["maxHeaders >= 1 (the constant is 100, generated)"],
+    },
+    "C09": {
+        "spec_ops": ["c upgrade", "c hb"],
+        "streams": [{"name": "sync", "quick": 160, "thorough": 3200}],
+        "rule": SYNC_RULE + " Every upgrade line carries the labelled answers of all query endpoints (info, per pool address get_utxos and get_balance, headers, synced) before and after; the specification column says they are identical.",
+        "explanation": "theorems: get_utxos / get_balance / get_block_headers / is_synced / main-chain height / guards / config are literally unchanged by upgrade; blockchain_info unchanged under DeltaOk (after the F7 fix the delta is recomputed); fee percentiles recomputed from the tx-out cache equal the insertion-time rates under Inv; with a config argument exactly the named fields change; simulation relation (equal up to fetch state and per-block metrics) preserved by push and ingestion and implying equal answers; the first request after an upgrade is an initial one.",
+        "technique": "Lean 4 theorems (frame lemmas + simulation relation over the model's upgrade) + differential correspondence with real pre_upgrade/post_upgrade at random message boundaries",
+        "level_text": "PARTIAL by design: the serialisation (ciborium, stable-memory layout) is outside the model; the logical content of an upgrade is proved transparent, and the real upgrade is exercised at every kind of message boundary (fetching, response stored, partial pages, ingestion paused).",
+        "level_note": "Known finding F13 (threshold raised while an ingestion is paused makes every later heartbeat trap) is reported as KNOWN-FINDING when the stream reaches it.",
+        "assumptions": ["an in-flight call is abandoned by an upgrade (the pending future is dropped)"],
+    },
+    "C20": {
+        "spec_ops": [],
+        "extra_props": ["C01Reach", "C03History"],
+        "streams": [{"name": "ledger", "quick": 160, "thorough": 1600}, {"name": "sync", "quick": 64, "thorough": 800}],
+        "rule": LEDGER_RULE + " The `snap` line dumps, canonically sorted: tree hashes, hashes in the stable-memory block cache, every cached tx out with value/address/height/reference count, per-block added and removed outpoints per address, announced headers by hash and by height, cached and recomputed tip depths.",
+        "explanation": "theorems for every reachable state (no mid-block pause): block-cache hashes = tree hashes (Nodup, same length); keys of the per-block delta maps = tree hashes and their content = the blocks' projections; a tx-out entry exists iff referenced, count = number of references, content = true output; every outpoint a later query / fee computation / removal looks up is present (remove never fails); cached tip depths = recomputed, also after upgrade; announced headers: the two maps agree, none is a tree block, all heights > stable height after a pop, max height = maximum.",
+        "technique": "Lean 4 invariant lifted to all reachable states of the op transition system (init, push, ingest, set_config, upgrade, announce) + differential correspondence of the full bookkeeping snapshot after every step",
+        "level_text": "Machine-checked exactness of the bookkeeping for all histories without a mid-block pause; the snapshot hook compares every structure with the model after each generated op (incl. discarded forks at different depths, shared transactions, upgrades).",
+        "level_note": "'Memory stays proportional' is represented by its logical content (entries = tree requirements). Pushes are the direct feed with domain hypotheses (fresh hash, parent in tree, transaction-valid, unique txids).",
+        "assumptions": [],
+    },
     "C01": {
         "spec_ops": ["c ledgerat"],
+        "extra_props": ["C01Reach", "InvPush", "InvIngest"],
         "streams": [{"name": "ledger", "quick": 160, "thorough": 1600}, {"name": "sync", "quick": 64, "thorough": 800}],
         "rule": LEDGER_RULE,
         "explanation": "theorems: for every state satisfying the global invariant Inv (established by init, preserved by push of a transaction-valid block and by ingestion+pop: Props/InvPush, Props/InvIngest) "
@@ -77,6 +119,7 @@ PROPS = {
     },
     "C03": {
         "spec_ops": ["c advance"],
+        "extra_props": ["C03History"],
         "streams": [{"name": "ledger", "quick": 160, "thorough": 1600}, {"name": "sync", "quick": 80, "thorough": 800}],
         "rule": LEDGER_RULE + " After every ingestion opportunity the line `advance` records how many anchors were popped, whether the new anchor lies on the chain served before, and whether a stable child is still pending.",
         "explanation": "theorems: get_stable_child = some i iff child i satisfies the difficulty rule or (testnet/regtest) the depth rule, both directions, = none iff no child does, uniqueness; the selected child is always the "
